@@ -419,3 +419,50 @@ pub fn gcd_pair(t: &mut Tape, n: usize) -> (Limbs, Limbs, &'static str) {
     };
     (x, y, class)
 }
+
+// ------------------------------------------------------------------------------------------------
+// worst-case divstep pairs (see worst.rs) mixed into the ordinary generators
+
+/// (modulus, value): one case in six is a constructed pair needing close to the maximal number of
+/// divsteps for its size (modulus = f odd, value = g), otherwise `modulus` + `value`.
+pub fn modulus_value(t: &mut Tape, n: usize, odd_only: bool) -> (Modulus, Limbs, &'static str) {
+    if t.chance(1, 10) {
+        if let Some(w) = crate::worst::pair(t, n, false) {
+            let al = limbs_exact(&w.g, n);
+            return (Modulus::of(w.f, "m: worst-case divstep pair", vec![]), al, "a: worst-case divstep pair (beam search)");
+        }
+    }
+    let md = modulus(t, n, odd_only);
+    let (al, acl) = value(t, n, &md);
+    (md, al, acl)
+}
+
+/// (odd modulus, residue) for Montgomery forms: one case in six is a constructed pair such that the
+/// Montgomery representation a * 2^(64n) mod m — the number safegcd sees — is the g of a worst-case
+/// pair with modulus f.
+pub fn modulus_residue(t: &mut Tape, n: usize) -> (Modulus, Limbs, &'static str) {
+    if t.chance(1, 10) {
+        if let Some(w) = crate::worst::pair(t, n, true) {
+            let r = pow2(64 * n as u64) % &w.f;
+            if let Some(rinv) = modinv(&r, &w.f) {
+                let a = (&w.g * rinv) % &w.f;
+                let al = limbs_exact(&a, n);
+                return (Modulus::of(w.f, "m: worst-case divstep pair", vec![]), al, "a: Montgomery representation is the g of a worst-case divstep pair");
+            }
+        }
+    }
+    let md = modulus(t, n, true);
+    let (al, acl) = residue_value(t, n, &md);
+    (md, al, acl)
+}
+
+/// gcd operands: one case in six a worst-case divstep pair (either order), otherwise `gcd_pair`.
+pub fn gcd_pair_w(t: &mut Tape, n: usize) -> (Limbs, Limbs, &'static str) {
+    if t.chance(1, 10) {
+        if let Some(w) = crate::worst::pair(t, n, false) {
+            let (fl, gl) = (limbs_exact(&w.f, n), limbs_exact(&w.g, n));
+            return if t.bool() { (fl, gl, "worst-case divstep pair") } else { (gl, fl, "worst-case divstep pair") };
+        }
+    }
+    gcd_pair(t, n)
+}
